@@ -394,9 +394,10 @@ impl<'a> crate::fdl::FdlApplication for DpMaster<'a> {
                 };
             }
             _ => {
-                unreachable!(
-                    "Received reply for unknown/unexpected peripheral #{addr}: {telegram:?}"
-                );
+                // This happens when the address of the peripheral was changed (`reset_address()`)
+                // while a request to its old address was still in flight.  The stale reply is of no
+                // use anymore, so ignore it.
+                log::warn!("Ignoring reply for unexpected peripheral #{addr}: {telegram:?}");
             }
         }
     }
